@@ -11,6 +11,9 @@ Model driver for C19. Line protocol (fields separated by one space; strings are 
   provnc <remote>                              saltedTokenProvider, no credentials in the context
   keep <remote> <tok>                          remoteProxy.remoteClient
   keepget <remote> <tok>                       remoteProxy.Get with a +R<remote>- hint
+  keepseq <remote>:<tok>;…                     remoteClient calls in sequence on ONE remoteProxy
+  keepgetseq <remote>[+<remote>…]:<tok>;…      Get requests in sequence on ONE remoteProxy, each
+                                               locator with one or more +R hints
 
   M  method                      A  - | p.<raw header> | b.<user>.<password>
   Q  - | item,item,…  (item = <key>=<value> | !)          K  - | t.<token> | r.<raw Cookie header>
@@ -139,6 +142,18 @@ def showProv (http : Bool) : Except ProvErr (List Str) → String
   | .error .backend => "err backend"
   | .error (.salt e) => showSaltErr e
 
+def showKeepGet : KeepGet → String
+  | .refused st => s!"refused-{st}"
+  | .requests a => "sent-" ++ hex a
+
+def parseSteps (s : String) : Option (List (List Str × Str)) :=
+  (s.splitOn ";").mapM (fun it =>
+    match it.splitOn ":" with
+    | [rs, t] => do
+      let remotes ← (rs.splitOn "+").mapM unhexC
+      some (remotes, (← unhexC t))
+    | _ => none)
+
 def step (line : String) : String :=
   match fields line with
   | ["salt", t, r] =>
@@ -186,6 +201,18 @@ def step (line : String) : String :=
         | .requests a => "sent " ++ hex a
       | _, _ => "bad-op"
     else "bad-op"
+  | ["keepseq", steps] =>
+    match parseSteps steps with
+    | some sts =>
+      if sts.all (fun st => st.1.length == 1) then
+        ";".intercalate ((keepSeq hmacSha1 (sts.map (fun st => (st.1.headD [], st.2)))).map
+          (fun r => (showSalt r).replace " " "-"))
+      else "bad-op"
+    | none => "bad-op"
+  | ["keepgetseq", steps] =>
+    match parseSteps steps with
+    | some sts => ";".intercalate ((keepGetSeq hmacSha1 sts).map showKeepGet)
+    | none => "bad-op"
   | ["provnc", rm] =>
     match unhex rm with
     | some rm => showProv false (provider hmacSha1 rm (fun _ => .error 401) none)
